@@ -348,7 +348,7 @@ func c14Long(n int) tval {
 func C14Plan() *vlib.Plan {
 	p := &vlib.Plan{
 		Property: "C14", Level: "exploration",
-		Rule: "E-ENUM: every value of the boundary catalogue (+-2^k, +-2^k+-1 through every width wrapper, all 256 chars, doubles = exponents x 6 mantissa patterns x sign + subnormals, all UTF-8 strings <= 3 symbols over {a,e-acute,euro,space,quote}, strings of length 16384+-2 and 1MiB+-34) and every sequence <= 3 of 8 representative values, x {plain, AES-GCM}: (1) real Put* bytes == independent encoder bytes; (2) reference payload re-cut at every position (every pair of positions for payloads <= 40 bytes) and reference-framed must be decoded by the real Get* to the original. Non-trivial = each distinct (value, mode, cut set) evaluation.",
+		Rule:   "E-ENUM: every value of the boundary catalogue (+-2^k, +-2^k+-1 through every width wrapper, all 256 chars, doubles = exponents x 6 mantissa patterns x sign + subnormals, all UTF-8 strings <= 3 symbols over {a,e-acute,euro,space,quote}, strings of length 16384+-2 and 1MiB+-34) and every sequence <= 3 of 8 representative values, x {plain, AES-GCM}: (1) real Put* bytes == independent encoder bytes; (2) reference payload re-cut at every position (every pair of positions for payloads <= 40 bytes) and reference-framed must be decoded by the real Get* to the original. Non-trivial = each distinct (value, mode, cut set) evaluation.",
 		Assume: []string{"doubles compared within 2^-30 relative (format precision); NaN/Inf excluded (statement says finite)"},
 	}
 	p.Gen = func(tier string, yield func(vlib.Case)) {
